@@ -75,6 +75,13 @@ var orderContracts = map[string]orderContract{
 	"(*MapPollard).Prove": {[]fieldOC{nil, {"": raw("H")}}},
 }
 
+// layoutOverride: position parameters that are not in the current tree layout
+// when the entry is called. Undo receives the targets of the block it undoes:
+// positions of the forest before that block's additions.
+var layoutOverride = map[string]CrdSet{
+	"(*MapPollard).Undo/arg2.Targets": crdPrev,
+}
+
 // seedOrderEntry builds the abstract arguments and the initial state of an entry.
 func seedOrderEntry(it *oInterp, p *Program, fn *ssa.Function, st *OState) []*OV {
 	name := p.FuncName(fn)
@@ -109,6 +116,9 @@ func seedOrderEntry(it *oInterp, p *Program, fn *ssa.Function, st *OState) []*OV
 				st.cls[a] = csOf(classFor(i, fnm, label+"."+fnm))
 				if isPositionSlice(u.Field(f).Type()) {
 					st.crd[a] = crdTree
+					if c, ok := layoutOverride[label+"."+fnm]; ok {
+						st.crd[a] = c
+					}
 				}
 				av.ensure(fmt.Sprintf(".%d", f)).join(ovArr(a))
 			}
@@ -1105,6 +1115,73 @@ func checkNoSilentHole(p *Program, r *Report) {
 		}
 	}
 	r.Floor("R02c", "proof-hash fetch sites in the provers", n, 2)
+
+	// R02e: a prover may return a constant position only for a forest that has
+	// ever had exactly one leaf.
+	r.Rule("R02e", "NO-CONSTANT-POSITION: a prover returns a literal position only behind the test that the forest has ever had exactly one leaf (NumLeaves == 1); any other lone leaf has climbed away from position 0")
+	m := 0
+	for _, name := range c02Entries {
+		fn := p.Func(name)
+		if fn == nil {
+			continue
+		}
+		for _, ret := range returnsOf(fn) {
+			if !isSuccessReturn(ret) {
+				continue
+			}
+			// literal position slices stored into the returned Proof
+			v := retOperands(ret)[0]
+			u, ok := v.(*ssa.UnOp)
+			if !ok {
+				continue
+			}
+			al, ok := u.X.(*ssa.Alloc)
+			if !ok {
+				continue
+			}
+			for _, ref := range *al.Referrers() {
+				fa, ok := ref.(*ssa.FieldAddr)
+				if !ok || fieldName(fa.X.Type(), fa.Field) != "Targets" {
+					continue
+				}
+				for _, r2 := range *fa.Referrers() {
+					st, ok := r2.(*ssa.Store)
+					if !ok || st.Addr != fa || !dominatesInstr(st, ret) {
+						continue
+					}
+					sl, ok := st.Val.(*ssa.Slice)
+					if !ok {
+						continue
+					}
+					if lit, ok := sl.X.(*ssa.Alloc); !ok || !strings.Contains(lit.Comment, "slicelit") {
+						continue
+					}
+					m++
+					key := fmt.Sprintf("%s/literal-targets#%d", name, m)
+					guarded := false
+					for _, g := range guardsAt(ret.Block()) {
+						rel, ok := relOf(g)
+						if !ok || rel.Op.String() != "==" {
+							continue
+						}
+						for _, pr := range [][2]ssa.Value{{rel.X, rel.Y}, {rel.Y, rel.X}} {
+							_, f, isField := fieldRead(pr[0])
+							c, isConst := pr[1].(*ssa.Const)
+							if isField && f == "NumLeaves" && isConst && c.Value != nil && c.Uint64() == 1 {
+								guarded = true
+							}
+						}
+					}
+					if guarded {
+						r.Discharge("R02e", key, posOf(p, ret), "the literal position is returned only when NumLeaves == 1", true)
+					} else {
+						r.Violate("R02e", key, posOf(p, ret), "a literal position is returned without the test NumLeaves == 1: the only live leaf of a forest that once had more leaves is not at position 0", "in "+name)
+					}
+				}
+			}
+		}
+	}
+	r.Stats["literal_position_returns"] = m
 }
 
 func isStumpMethod(p *Program, f *ssa.Function) bool {
